@@ -8,6 +8,19 @@ because it works on (file, rank) coordinates. -/
 namespace RCE.Props.C06
 open RCE RCE.Proofs.Sliders
 
+/-- rook lookups never hit the index panic and return exactly the sliding squares -/
+theorem rook_attacks_exact (sq : Nat) (occ : BB) (h : sq < 64) :
+    ∃ a, rookLookup? sq occ = some a ∧ Exact a (specSlider Rules.rookDirs sq occ) :=
+  rook_exact sq occ h
+
+theorem bishop_attacks_exact (sq : Nat) (occ : BB) (h : sq < 64) :
+    ∃ a, bishopLookup? sq occ = some a ∧ Exact a (specSlider Rules.bishopDirs sq occ) :=
+  bishop_exact sq occ h
+
+theorem queen_attacks_exact (sq : Nat) (occ : BB) (h : sq < 64) :
+    Exact (queenAttacks sq occ) (specSlider (Rules.rookDirs ++ Rules.bishopDirs) sq occ) :=
+  queen_exact sq occ h
+
 theorem knight_attacks_exact (sq : Nat) (h : sq < 64) :
     Exact (knightAttacks sq) (Rules.knightOff.filterMap fun d => Rules.step sq d.1 d.2) :=
   knight_exact sq h
@@ -22,8 +35,17 @@ theorem pawn_attacks_exact (white : Bool) (sq : Nat) (h : sq < 64) :
         fun d => Rules.step sq d.1 d.2) :=
   pawn_exact white sq h
 
+/-- non-vacuity: a concrete blocked rook -/
+example : rookLookup? 0 0x0000000001000104 = some 0x0000000000000106 := by
+  -- the kernel cannot evaluate the 4096-entry table fill directly (deep recursion); go through `rook_lookup_eq`.
+  -- a1 rook, blockers on c1, a2, a4: attacks b1, c1, a2.
+  rw [rook_lookup_eq 0 _ (by decide), rookSlow_fast]; decide +kernel
+
 end RCE.Props.C06
 
+#print axioms RCE.Props.C06.rook_attacks_exact
+#print axioms RCE.Props.C06.bishop_attacks_exact
+#print axioms RCE.Props.C06.queen_attacks_exact
 #print axioms RCE.Props.C06.knight_attacks_exact
 #print axioms RCE.Props.C06.king_attacks_exact
 #print axioms RCE.Props.C06.pawn_attacks_exact
